@@ -1,26 +1,33 @@
 """C06 — views and statistics are live and mutually consistent.
 
 For every history (Hypergraph, SimplicialComplex, DiHypergraph) the check creates the views `H.nodes`, `H.edges`,
-the stat objects (`H.nodes.degree`, `H.nodes.degree(order=k)`, `H.nodes.degree(weight=w)`, attrs stats,
-`H.edges.size`, …) and the multi-stat objects ONCE, before the first call, and keeps them across every mutation
+EVERY (stat x argument combination) of the degree / size families (order=, weight=, degree=, missing=; by keyword or
+positionally) and the multi-stat objects ONCE, before the first call, and keeps them across every mutation
 ("views held across mutations").  After every call it reads the held objects again and
 
   (i)  evaluates the property's own predicate on the implementation: the held objects agree with freshly
        constructed views (liveness), list the current IDs in insertion order, degree = |memberships|,
        size = |members|, order = size - 1, sum(degree) = sum(size) (directed: in/out/total degrees and head/tail
-       sizes against the directed incidence), all output formats of one stat agree and follow view order,
-       filterby / filterby_attr return exactly the IDs satisfying the comparison (brute force) in view order,
-       neighbors / lookup / duplicates / isolates / singletons / empty / maximal agree with brute-force
-       set-theoretic definitions;
+       sizes against the directed incidence), all output formats of one stat (and of a multi-stat table, transposed
+       or not) agree and follow view order, the IDStat aggregates equal their definitions on asdict() (with the
+       tie-breaking the docstrings promise), filterby / filterby_attr return exactly the IDs satisfying the
+       comparison (brute force) in view order, neighbors / lookup / duplicates / isolates / singletons / empty /
+       maximal agree with brute-force set-theoretic definitions;
   (ii) compares every observation with the Lean model's evaluation at the current state (driver C06: the
        Hypergraph histories are replayed op by op through `HG.step`; SimplicialComplex states — same view
        classes — are installed from their tables; DiHypergraph states are installed into the directed
-       twin of the model, C06/DiViews.lean).
+       twin of the model, C06/DiViews.lean).  The driver runs in the background while the next class is executed.
+
+Each observation step is guarded: a failure is reported under the xgi call that misbehaved; `observation-crashed:*`
+(run_history) is the last resort and never fires on the unchanged tree.
 """
 import copy
 import json
+import math
 import os
 import time
+import warnings
+from concurrent.futures import ThreadPoolExecutor
 
 import numpy as np
 import xgi
@@ -61,6 +68,23 @@ def attempt(f):
         return "ok", f()
     except Exception as e:  # noqa
         return errname(e), e
+
+
+def guard(ob, site, name, field, f):
+    """run one observation step.  Every xgi call inside a step is already wrapped (`attempt`) and its result is
+    type-checked before use; a step that crashes nevertheless is itself the failure, named after the step (so
+    the catch-all `observation-crashed:*` of run_history is the last resort only)"""
+    try:
+        return f()
+    except Infra:
+        raise
+    except Exception as e:  # noqa
+        ob.fail(site, f"{name}-unreadable:{type(e).__name__}", f"{type(e).__name__}: {e}", field)
+        return "err:" + type(e).__name__
+
+
+def isnum(v):
+    return isinstance(v, (int, float, np.integer, np.floating)) and not isinstance(v, (bool, np.bool_))
 
 
 def pycmp(mode, v, x, y):
@@ -203,7 +227,46 @@ class Truth:
 def gen_params(rng):
     """per-history arguments of the held stat objects"""
     return {"k": rng.choice([0, 1, 1, 2, 3, -1]), "w": rng.choice(["w", "weight", "m"]), "d": rng.choice([0, 1, 2, 3]),
-            "attr": rng.choice(MH.ATTR_KEYS), "missing": rng.choice([None, None, 0, 1, "r"])}
+            "attr": rng.choice(MH.ATTR_KEYS), "missing": rng.choice([None, None, 0, 1, "r"]),
+            "pos": rng.random() < 0.3, "kw": rng.random() < 0.5, "mo": rng.choice([2, 2, 3]), "numw": rng.random() < 0.65,
+            "fixsp": rng.random() < 0.5}
+
+
+def numeric_weights(ops, w, rng):
+    """make the values stored under the weight key `w` integers, wherever an op carries attributes (in place).
+    Without this most histories sooner or later hold a string / None / list under `w`, and every weighted degree
+    over the full view raises TypeError from then on (correctly, but nothing numeric is compared any more)."""
+    pick = lambda v: v if isinstance(v, int) and not isinstance(v, bool) else rng.choice([0, 1, 2, 3, 5])
+
+    def fix_attrs(l):
+        if isinstance(l, list):
+            for p in l:
+                if isinstance(p, list) and len(p) == 2 and p[0] == w:
+                    p[1] = pick(p[1])
+
+    def walk(o):
+        if isinstance(o, dict):
+            if o.get("name") == w:
+                if "value" in o:
+                    o["value"] = pick(o["value"])
+                if isinstance(o.get("values"), list):
+                    for p in o["values"]:
+                        if isinstance(p, list) and len(p) == 2:
+                            p[1] = pick(p[1])
+            if o.get("shape") == "dict_of_dict" and isinstance(o.get("values"), list):
+                for p in o["values"]:
+                    if isinstance(p, list) and len(p) == 2:
+                        fix_attrs(p[1])
+            for k, v in o.items():
+                if k == "attr":
+                    fix_attrs(v)
+                elif k not in ("values", "value"):
+                    walk(v)
+        elif isinstance(o, list):
+            for x in o:
+                walk(x)
+    walk(ops)
+    return ops
 
 
 def gen_step(rng, T):
@@ -236,38 +299,66 @@ def gen_step(rng, T):
 
 # ----------------------------------------------------------------------------- held objects
 
-NSTATS_U = ["degree", "degree_o", "and", "attr", "attrs", "degree_w", "degree_ow"]
-ESTATS_U = ["size", "order", "size_d", "order_d", "attr", "attrs"]
-NSTATS_D = ["degree", "degree_o", "in_degree", "in_degree_o", "out_degree", "out_degree_o", "attr", "attrs",
-            "degree_w", "in_degree_w", "out_degree_ow"]
-ESTATS_D = ["size", "order", "size_d", "order_d", "tail_size", "tail_order", "head_size", "head_order",
-            "tail_size_d", "head_size_d", "tail_order_d", "head_order_d", "attr", "attrs"]
-KIND = {"attr": "val", "attrs": "attrs"}      # everything else is numeric
+DEG_U, DEG_D = ["degree"], ["degree", "in_degree", "out_degree"]
+SIZE_U = ["size", "order"]
+SIZE_D = ["size", "order", "tail_size", "tail_order", "head_size", "head_order"]
+KIND = {"attr": "val", "attr_d": "val", "attrs": "attrs"}      # everything else is numeric
+# multi-stat objects: a mixed one (name given as string, stat object with arguments, attribute column) and an
+# all-numeric one (so that asnumpy() is a plain 2-d table); names = keys of the held single stats
 NMULTI = ["degree", "degree_o", "attr"]
 EMULTI = ["size", "order_d", "attr"]
+NMULTI2 = {False: ["degree", "degree_o", "and"], True: ["in_degree", "out_degree_o", "degree"]}
+EMULTI2 = {False: ["size", "order_d", "order"], True: ["tail_size", "head_order_d", "size"]}
+# aggregates that the model evaluates too (the predicate covers every numeric held stat)
+NAGG = {False: ["degree", "degree_o", "and"], True: ["degree", "in_degree", "out_degree_o"]}
+EAGG = {False: ["size", "order_d"], True: ["size", "tail_size", "head_order_d"]}
+
+
+def nstat_names(directed):
+    out = []
+    for b in (DEG_D if directed else DEG_U):
+        out += [b, b + "_o", b + "_w", b + "_ow"]
+    if not directed:
+        out.append("and")
+    return out + ["attr", "attr_d", "attrs"]
+
+
+def estat_names(directed):
+    out = []
+    for b in (SIZE_D if directed else SIZE_U):
+        out += [b, b + "_d"]
+    return out + ["attr", "attr_d", "attrs"]
 
 
 def node_stats(v, P, directed):
-    k, w, a, mi = P["k"], P["w"], P["attr"], P["missing"]
-    s = {"degree": v.degree, "degree_o": v.degree(order=k), "attr": v.attrs(a, mi), "attrs": v.attrs,
-         "degree_w": v.degree(weight=w)}
-    if directed:
-        s.update(in_degree=v.in_degree, in_degree_o=v.in_degree(order=k), out_degree=v.out_degree,
-                 out_degree_o=v.out_degree(order=k), in_degree_w=v.in_degree(weight=w),
-                 out_degree_ow=v.out_degree(order=k, weight=w))
-    else:
-        s.update({"and": v.average_neighbor_degree, "degree_ow": v.degree(order=k, weight=w)})
+    """EVERY (stat x argument combination): each degree function with (), (order), (weight), (order, weight);
+    arguments by keyword or — P["pos"] — positionally in signature order"""
+    k, w, a, mi, pos = P["k"], P["w"], P["attr"], P["missing"], P.get("pos", False)
+    s = {}
+    for b in (DEG_D if directed else DEG_U):
+        base = getattr(v, b)
+        s[b] = base
+        s[b + "_o"] = base(k) if pos else base(order=k)
+        s[b + "_w"] = base(None, w) if pos else base(weight=w)
+        s[b + "_ow"] = base(k, w) if pos else base(order=k, weight=w)
+    if not directed:
+        s["and"] = v.average_neighbor_degree
+    s["attr"] = v.attrs(a, mi) if pos or not P.get("kw", False) else v.attrs(attr=a, missing=mi)
+    s["attr_d"] = v.attrs(a)                     # `missing` left at its default
+    s["attrs"] = v.attrs
     return s
 
 
 def edge_stats(v, P, directed):
-    d, a, mi = P["d"], P["attr"], P["missing"]
-    s = {"size": v.size, "order": v.order, "size_d": v.size(degree=d), "order_d": v.order(degree=d),
-         "attr": v.attrs(a, mi), "attrs": v.attrs}
-    if directed:
-        s.update(tail_size=v.tail_size, tail_order=v.tail_order, head_size=v.head_size, head_order=v.head_order,
-                 tail_size_d=v.tail_size(degree=d), head_size_d=v.head_size(degree=d),
-                 tail_order_d=v.tail_order(degree=d), head_order_d=v.head_order(degree=d))
+    d, a, mi, pos = P["d"], P["attr"], P["missing"], P.get("pos", False)
+    s = {}
+    for b in (SIZE_D if directed else SIZE_U):
+        base = getattr(v, b)
+        s[b] = base
+        s[b + "_d"] = base(d) if pos else base(degree=d)
+    s["attr"] = v.attrs(a, mi) if pos or not P.get("kw", False) else v.attrs(attr=a, missing=mi)
+    s["attr_d"] = v.attrs(a)
+    s["attrs"] = v.attrs
     return s
 
 
@@ -281,6 +372,10 @@ class Held:
         self.es = edge_stats(self.ev, P, directed)
         self.nmulti = self.nv.multi(["degree", self.ns["degree_o"], self.ns["attr"]])
         self.emulti = self.ev.multi([self.es["size"], self.es["order_d"], self.es["attr"]])
+        # numeric tables: first column by NAME (dispatch through the stats module), the others as held objects
+        n2, e2 = NMULTI2[directed], EMULTI2[directed]
+        self.nmulti2 = self.nv.multi([n2[0]] + [self.ns[k] for k in n2[1:]])
+        self.emulti2 = self.ev.multi([e2[0]] + [self.es[k] for k in e2[1:]])
         self.filtered = {}        # "n"/"e" -> (ids, held filtered view, held stat on it), created when IDs exist
 
     def held_filtered(self, ob, T):
@@ -337,37 +432,32 @@ def truth_stats(T, P, k):
                 else:
                     res[n] = "$any"              # bool / float weights: outside the attribute domain
             return res
-        out["degree"] = deg(T.memb)
-        out["degree_o"] = deg(T.memb, K)
-        out["degree_w"] = deg(T.memb, None, W)
-        out["attr"] = {n: T.nattr[n].get(A, MI) for n in T.nodes}
-        out["attrs"] = {n: T.nattr[n] for n in T.nodes}
+        tables = {"degree": T.memb}
         if T.directed:
-            out["in_degree"], out["in_degree_o"] = deg(T.min), deg(T.min, K)
-            out["out_degree"], out["out_degree_o"] = deg(T.mout), deg(T.mout, K)
-            out["in_degree_w"], out["out_degree_ow"] = deg(T.min, None, W), deg(T.mout, K, W)
-        else:
-            out["degree_ow"] = deg(T.memb, K, W)
+            tables.update(in_degree=T.min, out_degree=T.mout)
+        for b, tab in tables.items():
+            out[b], out[b + "_o"] = deg(tab), deg(tab, K)
+            out[b + "_w"], out[b + "_ow"] = deg(tab, None, W), deg(tab, K, W)
+        out["attr"] = {n: T.nattr[n].get(A, MI) for n in T.nodes}
+        out["attr_d"] = {n: T.nattr[n].get(A) for n in T.nodes}
+        out["attrs"] = {n: T.nattr[n] for n in T.nodes}
+        if not T.directed:
             nb = {n: nbrs(T, "n", n, 1) for n in T.nodes}
             out["and"] = {n: (sum(len(T.memb[m]) for m in nb[n]) / len(nb[n]) if nb[n] else 0) for n in T.nodes}
     else:
         dg = {n: len(T.memb[n]) for n in T.nodes}
         cnt = lambda ms: sum(1 for n in ms if dg.get(n) == D)
-        out["size"] = {e: len(T.mem[e]) for e in T.edges}
-        out["order"] = {e: len(T.mem[e]) - 1 for e in T.edges}
-        out["size_d"] = {e: cnt(T.mem[e]) for e in T.edges}
-        out["order_d"] = {e: cnt(T.mem[e]) - 1 for e in T.edges}
-        out["attr"] = {e: T.eattr[e].get(A, MI) for e in T.edges}
-        out["attrs"] = {e: T.eattr[e] for e in T.edges}
+        tables = {"": T.mem}
         if T.directed:
-            out["tail_size"] = {e: len(T.tail[e]) for e in T.edges}
-            out["head_size"] = {e: len(T.head[e]) for e in T.edges}
-            out["tail_order"] = {e: len(T.tail[e]) - 1 for e in T.edges}
-            out["head_order"] = {e: len(T.head[e]) - 1 for e in T.edges}
-            out["tail_size_d"] = {e: cnt(T.tail[e]) for e in T.edges}
-            out["head_size_d"] = {e: cnt(T.head[e]) for e in T.edges}
-            out["tail_order_d"] = {e: cnt(T.tail[e]) - 1 for e in T.edges}
-            out["head_order_d"] = {e: cnt(T.head[e]) - 1 for e in T.edges}
+            tables.update(tail_=T.tail, head_=T.head)
+        for pre, tab in tables.items():
+            out[pre + "size"] = {e: len(tab[e]) for e in T.edges}
+            out[pre + "order"] = {e: len(tab[e]) - 1 for e in T.edges}
+            out[pre + "size_d"] = {e: cnt(tab[e]) for e in T.edges}
+            out[pre + "order_d"] = {e: cnt(tab[e]) - 1 for e in T.edges}
+        out["attr"] = {e: T.eattr[e].get(A, MI) for e in T.edges}
+        out["attr_d"] = {e: T.eattr[e].get(A) for e in T.edges}
+        out["attrs"] = {e: T.eattr[e] for e in T.edges}
     return out
 
 
@@ -422,7 +512,7 @@ def same_vals(a, b):
     return type(plain(a)) is type(plain(b)) and a == b if isinstance(a, bool) or isinstance(b, bool) else a == b
 
 
-def stat_forms(ob, stat, view_ids, expected, kind, cname, field):
+def stat_forms(ob, stat, view_ids, expected, kind, cname, field, pandas=True):
     """read one stat object in all formats; check them against `expected` (dict | "err:…") and each other.
     Returns the observation (model shape)."""
     st, d = attempt(stat.asdict)
@@ -435,6 +525,9 @@ def stat_forms(ob, stat, view_ids, expected, kind, cname, field):
     if st != "ok":
         ob.fail(f"{cname}.asdict", "raises", f"{st}: {d}", field)
         return st
+    if not isinstance(d, dict):
+        ob.fail(f"{cname}.asdict", "wrong-type", f"asdict() returned {type(d).__name__}", field)
+        return "err:wrong-type"
     vals_free = any(isinstance(v, str) and v == "$any" for v in expected.values())
     if list(d.keys()) != list(view_ids):
         ob.fail(f"{cname}.asdict", "keys-not-view-order", f"keys {list(d)} view {list(view_ids)}", field)
@@ -447,6 +540,8 @@ def stat_forms(ob, stat, view_ids, expected, kind, cname, field):
     st, l = attempt(stat.aslist)
     if st != "ok":
         ob.fail(f"{cname}.aslist", "raises", f"{st}: {l}", field); out["aslist"] = st
+    elif not isinstance(l, list):
+        ob.fail(f"{cname}.aslist", "wrong-type", f"aslist() returned {type(l).__name__}", field); out["aslist"] = "err:wrong-type"
     else:
         if len(l) != len(vals) or not all(same_vals(a, b) for a, b in zip(l, vals)):
             ob.fail(f"{cname}.aslist", "differs-from-asdict", f"aslist {l} asdict values {vals}", field)
@@ -459,20 +554,27 @@ def stat_forms(ob, stat, view_ids, expected, kind, cname, field):
             ob.fail(f"{cname}.asnumpy", "raises", f"{st}: {a}", field); out["asnumpy"] = st
         else:
             out["asnumpy"] = "$skip"
+    elif not isinstance(a, np.ndarray):
+        ob.fail(f"{cname}.asnumpy", "wrong-type", f"asnumpy() returned {type(a).__name__}", field); out["asnumpy"] = "err:wrong-type"
     else:
         if comparable and (a.dtype == object or homogeneous(vals) or not vals):
             al = a.tolist()
-            if len(al) != len(vals) or not all(same_vals(x, y) for x, y in zip(al, vals)):
+            if not isinstance(al, list) or len(al) != len(vals) or not all(same_vals(x, y) for x, y in zip(al, vals)):
                 ob.fail(f"{cname}.asnumpy", "differs-from-aslist", f"asnumpy {al} aslist {vals}", field)
-            out["asnumpy"] = [enc_sv(v, kind) for v in al]
+                out["asnumpy"] = "err:differs"
+            else:
+                out["asnumpy"] = [enc_sv(v, kind) for v in al]
         else:
             out["asnumpy"] = "$skip"
     # aspandas (pandas turns tuple keys into a MultiIndex: tuple IDs are outside what a Series index shows)
-    st, s = attempt(stat.aspandas)
-    if any(isinstance(i, tuple) for i in view_ids):
+    if not pandas or any(isinstance(i, tuple) for i in view_ids):
         out["aspandas"] = "$skip"
-    elif st != "ok":
+        return out
+    st, s = attempt(stat.aspandas)
+    if st != "ok":
         ob.fail(f"{cname}.aspandas", "raises", f"{st}: {s}", field); out["aspandas"] = st
+    elif not hasattr(s, "index") or not hasattr(s, "tolist"):
+        ob.fail(f"{cname}.aspandas", "wrong-type", f"aspandas() returned {type(s).__name__}", field); out["aspandas"] = "err:wrong-type"
     else:
         idx = s.index.tolist()
         pv = "$skip"
@@ -486,75 +588,238 @@ def stat_forms(ob, stat, view_ids, expected, kind, cname, field):
             if set(byid) == set(d) and not all(same_vals(byid[i], d[i]) for i in d):
                 ob.fail(f"{cname}.aspandas", "values-differ-from-asdict", f"series {byid} asdict {d}", field)
             pv = [enc_sv(v, kind) for v in sv]
-        if getattr(s, "name", None) != stat.name:
-            ob.fail(f"{cname}.aspandas", "series-name", f"{s.name!r} vs {stat.name!r}", field)
+        nm = attempt(lambda: stat.name)
+        if getattr(s, "name", None) != nm[1]:
+            ob.fail(f"{cname}.aspandas", "series-name", f"{getattr(s, 'name', None)!r} vs {nm[1]!r}", field)
         out["aspandas"] = {"index": [enc_id(i) for i in idx], "values": pv}
     return out
 
 
-def multi_forms(ob, multi, singles, keys, kinds, view_ids, field):
+# IDStat aggregates: the definition of each, computed from the values of asdict() in view order.
+# Tie-breaking is checked where the docstring promises it: argmin / argmax "returns first ID corresponding to the
+# minimum / maximal value" (first in view order = asdict order), argsort "the order of the IDs is preserved"
+# (a stable sort, also with reverse=True).  `mode` promises nothing about ties: any most frequent value passes.
+def agg_defs(ids, vals, mo):
+    n = len(vals)
+    mean = sum(vals) / n
+    var = sum((v - mean) ** 2 for v in vals) / n
+    sv = sorted(vals)
+    uniq = sorted(set(vals))
+    counts = [sum(1 for v in vals if v == u) for u in uniq]
+    mx, mn = max(vals), min(vals)
+    return {"max": mx, "min": mn, "sum": sum(vals), "mean": mean,
+            "median": sv[n // 2] if n % 2 else (sv[n // 2 - 1] + sv[n // 2]) / 2,
+            "var": var, "std": math.sqrt(var), "moment": sum(v ** mo for v in vals) / n,
+            "cmoment": sum((v - mean) ** mo for v in vals) / n,
+            "argmax": ids[vals.index(mx)], "argmin": ids[vals.index(mn)],
+            "argsort": [ids[j] for j in sorted(range(n), key=lambda j: (vals[j], j))],
+            "argsort_r": [ids[j] for j in sorted(range(n), key=lambda j: (-vals[j], j))],
+            "unique": uniq, "counts": counts,
+            "modes": [u for u, c in zip(uniq, counts) if c == max(counts)]}
+
+
+MODEL_AGGS = ("max", "min", "sum", "mean", "median", "var", "moment", "cmoment", "argmax", "argmin", "argsort", "argsort_r",
+              "unique", "counts")
+AGG_IDS = ("argmax", "argmin")
+AGG_IDLISTS = ("argsort", "argsort_r")
+
+
+def aggregates(ob, stat, ids, mo, field, label, central=True):
+    """read every aggregate of one numeric stat over a non-empty view and compare it with its definition;
+    returns the observation {name: value} in the model's shape ("$skip" when not applicable)"""
+    st, d = attempt(stat.asdict)
+    if st != "ok" or not isinstance(d, dict) or not d or list(d) != list(ids) or not all(isnum(v) for v in d.values()):
+        return "$skip"
+    vals = [plain(d[i]) for i in ids]
+    exp = agg_defs(list(ids), vals, mo)
+    calls = {"max": stat.max, "min": stat.min, "sum": stat.sum, "mean": stat.mean, "median": stat.median,
+             "var": stat.var, "std": stat.std, "moment": lambda: stat.moment(mo),
+             "cmoment": lambda: stat.moment(order=mo, center=True), "argmax": stat.argmax, "argmin": stat.argmin,
+             "argsort": stat.argsort, "argsort_r": lambda: stat.argsort(reverse=True),
+             "unique": stat.unique, "counts": lambda: stat.unique(return_counts=True), "mode": stat.mode}
+    if not central:              # scipy's central moment costs a millisecond: read for one (rotating) stat per step
+        del calls["cmoment"]
+    out = {}
+    for nm, f in calls.items():
+        with warnings.catch_warnings():
+            warnings.simplefilter("ignore")          # scipy warns about precision when all values are equal
+            res = attempt(f)
+        site = "IDStat." + {"argsort_r": "argsort", "cmoment": "moment", "counts": "unique"}.get(nm, nm)
+        st, r = res
+        if st != "ok":
+            ob.fail(site, "raises", f"{label}.{nm}: {st}: {r}", field)
+            continue
+        bad, cls = None, "aggregate-differs-from-definition"
+        if nm in AGG_IDS:
+            what = nm[3:] + "imum"
+            if r not in d:
+                bad = f"{r!r} is not an ID of the view"
+            elif not same_vals(d[r], exp[nm[3:]]):
+                bad = f"value at {r!r} is {d[r]!r}, the {what} is {exp[nm[3:]]!r}"
+            elif r != exp[nm]:
+                bad, cls = f"{r!r} is not the FIRST ID in view order with the {what}; that is {exp[nm]!r}", "aggregate-tie-not-first-in-view-order"
+            else:
+                out[nm] = enc_id(r)
+        elif nm in AGG_IDLISTS:
+            if not isinstance(r, list) or sorted(map(repr, r)) != sorted(map(repr, ids)):
+                bad = f"{r!r} is not a permutation of the view {list(ids)}"
+            elif r != exp[nm]:
+                keys = [d[i] for i in r]
+                if all((a <= b) if nm == "argsort" else (a >= b) for a, b in zip(keys, keys[1:])):
+                    bad, cls = f"{r} is sorted, but IDs with equal values are not in view order (expected {exp[nm]})", "aggregate-ties-not-in-view-order"
+                else:
+                    bad = f"{r} is not sorted by value: {keys}"
+            else:
+                out[nm] = [enc_id(i) for i in r]
+        elif nm == "unique":
+            got = r.tolist() if isinstance(r, np.ndarray) else None
+            if got is None or len(got) != len(exp[nm]) or not all(same_vals(a, b) for a, b in zip(got, exp[nm])):
+                bad = f"{r!r} vs sorted distinct values {exp[nm]}"
+            else:
+                out[nm] = got
+        elif nm == "counts":
+            ok = isinstance(r, tuple) and len(r) == 2 and all(isinstance(x, np.ndarray) for x in r)
+            if not ok or r[1].tolist() != exp["counts"] or len(r[0]) != len(exp["unique"]):
+                bad = f"{r!r} vs values {exp['unique']} counts {exp['counts']}"
+            else:
+                out[nm] = r[1].tolist()
+        elif nm == "mode":
+            if not any(same_vals(plain(r), m) for m in exp["modes"]):
+                bad = f"{r!r} is not a most frequent value (those are {exp['modes']})"
+        else:
+            v = plain(r)
+            if not isnum(v) or not same_vals(v, exp[nm]):
+                bad = f"{v!r} vs definition {exp[nm]!r} on values {vals}"
+            elif nm != "std":
+                out[nm] = v
+        if bad:
+            ob.fail(site, cls, f"{label}.{nm}{'(' + str(mo) + ')' if 'moment' in nm else ''}: {bad}", field)
+    for nm in MODEL_AGGS:            # not read at this step / failed (reported above): nothing to compare with the model
+        out.setdefault(nm, "$skip")
+    # items() / iteration / len: the same mapping as asdict()
+    for nm, f in (("items", lambda: dict(stat.items())), ("__iter__", lambda: dict(iter(stat))), ("__len__", lambda: len(stat))):
+        st, r = attempt(f)
+        want = len(ids) if nm == "__len__" else d
+        if st != "ok" or r != want:
+            ob.fail("IDStat." + nm, "differs-from-asdict", f"{label}: {st} {r!r} vs {want!r}", field)
+    return out
+
+
+def table_obs(a, rows, ncols):
+    """np.ndarray of a multi-stat vs the list of rows: (problem | None, observation)"""
+    if not isinstance(a, np.ndarray):
+        return f"returned {type(a).__name__}", "err:wrong-type"
+    if not rows:
+        return (None if a.size == 0 else f"non-empty array {a.tolist()} for an empty view"), []
+    if a.shape != (len(rows), ncols):
+        return f"shape {a.shape}, expected (ids, stats) = {(len(rows), ncols)}", "err:shape"
+    al = a.tolist()
+    if a.dtype.kind in "US":         # numpy made every cell a string
+        same = all(str(x) == str(y) for ra, rr in zip(al, rows) for x, y in zip(ra, rr))
+    else:
+        same = all(same_vals(x, y) for ra, rr in zip(al, rows) for x, y in zip(ra, rr))
+    return (None if same else f"cells {al} differ from aslist() {rows}"), al
+
+
+def multi_forms(ob, multi, singles, keys, kinds, view_ids, field, pandas=True):
     """`view.multi([...])`: every layout against the single stats' own asdict()"""
     cname = "MultiIDStat"
-    names = [s.name for s in singles]
-    st, sd = attempt(lambda: [s.asdict() for s in singles])
-    if st != "ok":
+    st, names = attempt(lambda: [s.name for s in singles])
+    st2, sd = attempt(lambda: [s.asdict() for s in singles])
+    if st != "ok" or st2 != "ok":
         return "$skip"
+    numeric = all(k == "num" for k in kinds)
     out = {}
     st, d = attempt(multi.asdict)
     if st != "ok":
         ob.fail(f"{cname}.asdict", "raises", f"{st}: {d}", field); return st
+    if not isinstance(d, dict) or not all(isinstance(r, dict) for r in d.values()):
+        ob.fail(f"{cname}.asdict", "wrong-type", f"asdict() = {d!r}"[:300], field); return "err:wrong-type"
     exp = {n: {nm: sd[j][n] for j, nm in enumerate(names)} for n in view_ids}
     if list(d.keys()) != list(view_ids):
         ob.fail(f"{cname}.asdict", "keys-not-view-order", f"keys {list(d)} view {list(view_ids)}", field)
     elif d != exp or any(list(d[n].keys()) != names for n in d):
         ob.fail(f"{cname}.asdict", "differs-from-single-stats", f"multi {d} singles {exp}", field)
     enc_row = lambda vals: [enc_sv(v, kinds[j]) for j, v in enumerate(vals)]
-    out["asdict"] = [[enc_id(n), [[keys[j], enc_sv(v, kinds[j])] for j, v in enumerate(r.values())]] for n, r in d.items()]
+    wide = lambda r: len(r) == len(keys)
+    out["asdict"] = [[enc_id(n), [[keys[j], enc_sv(v, kinds[j])] for j, v in enumerate(r.values())]] for n, r in d.items()] \
+        if all(wide(r) for r in d.values()) else "err:shape"
     st, dt = attempt(lambda: multi.asdict(transpose=True))
     if st != "ok":
         ob.fail(f"{cname}.asdict", "raises", f"transpose: {st}: {dt}", field); out["asdict_t"] = st
+    elif not isinstance(dt, dict) or not all(isinstance(c, dict) for c in dt.values()):
+        ob.fail(f"{cname}.asdict", "wrong-type", f"asdict(transpose=True) = {dt!r}"[:300], field); out["asdict_t"] = "err:wrong-type"
     else:
         if list(dt.keys()) != names or any(dt[nm] != sd[j] or list(dt[nm]) != list(view_ids) for j, nm in enumerate(names)):
             ob.fail(f"{cname}.asdict", "transpose-differs-from-single-stats", f"{dt} vs {sd}", field)
         out["asdict_t"] = [[keys[j], [[enc_id(i), enc_sv(v, kinds[j])] for i, v in dt[nm].items()]] for j, nm in enumerate(dt)] \
-            if len(dt) == len(keys) else "$skip"
+            if len(dt) == len(keys) else "err:shape"
     st, l = attempt(multi.aslist)
     rows = [[sd[j][n] for j in range(len(names))] for n in view_ids]
+    cols = [[sd[j][n] for n in view_ids] for j in range(len(names))]
+    islol = lambda x: isinstance(x, list) and all(isinstance(r, list) for r in x)
     if st != "ok":
         ob.fail(f"{cname}.aslist", "raises", f"{st}: {l}", field); out["aslist"] = st
+    elif not islol(l):
+        ob.fail(f"{cname}.aslist", "wrong-type", f"aslist() = {l!r}"[:300], field); out["aslist"] = "err:wrong-type"
     else:
         if l != rows:
             ob.fail(f"{cname}.aslist", "differs-from-single-stats", f"{l} vs {rows}", field)
-        out["aslist"] = [enc_row(r) for r in l] if all(len(r) == len(keys) for r in l) else "$skip"
+        out["aslist"] = [enc_row(r) for r in l] if all(wide(r) for r in l) else "err:shape"
     st, lt = attempt(lambda: multi.aslist(transpose=True))
     if st != "ok":
         ob.fail(f"{cname}.aslist", "raises", f"transpose: {st}: {lt}", field); out["aslist_t"] = st
+    elif not islol(lt):
+        ob.fail(f"{cname}.aslist", "wrong-type", f"aslist(transpose=True) = {lt!r}"[:300], field); out["aslist_t"] = "err:wrong-type"
     else:
-        if lt != [[sd[j][n] for n in view_ids] for j in range(len(names))]:
-            ob.fail(f"{cname}.aslist", "transpose-differs-from-single-stats", f"{lt}", field)
-        out["aslist_t"] = [[enc_sv(v, kinds[j]) for v in col] for j, col in enumerate(lt)] if len(lt) == len(keys) else "$skip"
-    st, dl = attempt(lambda: multi.asdict(inner=list))
-    if st != "ok" or dl != {n: rows[i] for i, n in enumerate(view_ids)} or list(dl) != list(view_ids):
-        ob.fail(f"{cname}.asdict", "inner-list-differs", f"{st}: {dl}", field)
-    st, ld = attempt(lambda: multi.aslist(inner=dict))
-    if st != "ok" or ld != [exp[n] for n in view_ids]:
-        ob.fail(f"{cname}.aslist", "inner-dict-differs", f"{st}: {ld}", field)
-    # asnumpy on the numeric columns only (np.array of mixed rows is numpy's business)
-    st, df = attempt(multi.aspandas)
-    if any(isinstance(i, tuple) for i in view_ids):
+        if lt != cols:
+            ob.fail(f"{cname}.aslist", "transpose-differs-from-single-stats", f"{lt} vs columns {cols}", field)
+        out["aslist_t"] = [[enc_sv(v, kinds[j]) for v in col] for j, col in enumerate(lt)] if len(lt) == len(keys) else "err:shape"
+    # the remaining argument combinations (`transpose` is documented as ignored unless the inner type is the default)
+    for label, f, want in (("asdict(inner=list)", lambda: multi.asdict(inner=list), {n: rows[i] for i, n in enumerate(view_ids)}),
+                           ("asdict(inner=list, transpose=True)", lambda: multi.asdict(inner=list, transpose=True),
+                            {n: rows[i] for i, n in enumerate(view_ids)}),
+                           ("aslist(inner=dict)", lambda: multi.aslist(inner=dict), [exp[n] for n in view_ids]),
+                           ("aslist(inner=dict, transpose=True)", lambda: multi.aslist(inner=dict, transpose=True), [exp[n] for n in view_ids])):
+        st, r = attempt(f)
+        if st != "ok" or r != want or (isinstance(r, dict) and list(r) != list(view_ids)):
+            ob.fail(f"{cname}.{label.split('(')[0]}", "inner-" + ("list" if "inner=list" in label else "dict") + "-differs", f"{label}: {st}: {r!r} vs {want!r}", field)
+    st, r = attempt(lambda: multi.asdict(inner=set))
+    if st != "err:value":
+        ob.fail(f"{cname}.asdict", "unknown-inner-accepted", f"asdict(inner=set): {st}", field)
+    # asnumpy: "equivalent to np.array(self.aslist(inner=list))": rows = IDs, columns = stats
+    scal = all(scalar(v) for r in rows for v in r)
+    st, a = attempt(multi.asnumpy)
+    if st != "ok":
+        if scal:
+            ob.fail(f"{cname}.asnumpy", "raises", f"{st}: {a}", field); out["asnumpy"] = st
+        else:
+            out["asnumpy"] = "$skip"        # np.array of ragged rows (list / dict valued attributes) is numpy's business
+    elif scal:
+        bad, al = table_obs(a, rows, len(names))
+        if bad:
+            ob.fail(f"{cname}.asnumpy", "differs-from-aslist", bad, field)
+        out["asnumpy"] = ([enc_row(r) for r in al] if numeric and not bad else ("$skip" if not bad else "err:differs"))
+    else:
+        out["asnumpy"] = "$skip"
+    if not pandas or any(isinstance(i, tuple) for i in view_ids):
         out["aspandas"] = "$skip"
-    elif st != "ok":
+        return out
+    st, df = attempt(multi.aspandas)
+    if st != "ok":
         ob.fail(f"{cname}.aspandas", "raises", f"{st}: {df}", field); out["aspandas"] = st
+    elif not hasattr(df, "index") or not hasattr(df, "columns"):
+        ob.fail(f"{cname}.aspandas", "wrong-type", f"aspandas() returned {type(df).__name__}", field); out["aspandas"] = "err:wrong-type"
     else:
-        idx, cols = df.index.tolist(), df.columns.tolist()
+        idx, cols_ = df.index.tolist(), df.columns.tolist()
         if sorted(map(repr, idx)) != sorted(map(repr, view_ids)):
             ob.fail(f"{cname}.aspandas", "index-not-the-view", f"index {idx} view {list(view_ids)}", field)
         elif idx != list(view_ids):
             ob.fail(f"{cname}.aspandas", "index-not-view-order", f"index {idx} view order {list(view_ids)}", field)
-        if cols != names:
-            ob.fail(f"{cname}.aspandas", "columns-not-stat-names", f"{cols} vs {names}", field)
+        if cols_ != names:
+            ob.fail(f"{cname}.aspandas", "columns-not-stat-names", f"{cols_} vs {names}", field)
         prow = []
-        if cols == names:
+        if cols_ == names:
             for n in idx:
                 r = []
                 for j, nm in enumerate(names):
@@ -562,12 +827,12 @@ def multi_forms(ob, multi, singles, keys, kinds, view_ids, field):
                         v = plain(df[nm][n])
                         if not same_vals(v, sd[j][n]):
                             ob.fail(f"{cname}.aspandas", "values-differ-from-single-stats", f"[{n!r},{nm}] = {v!r} vs {sd[j][n]!r}", field)
-                        r.append(int(v) if float(v).is_integer() else v)
+                        r.append(int(v) if isnum(v) and float(v).is_integer() else v)
                     else:
                         r.append("$skip")
                 prow.append(r)
-        out["aspandas"] = {"index": [enc_id(i) for i in idx], "columns": keys if cols == names else "$skip",
-                           "rows": prow if cols == names else "$skip"}
+        out["aspandas"] = {"index": [enc_id(i) for i in idx], "columns": keys if cols_ == names else "$skip",
+                           "rows": prow if cols_ == names else "$skip"}
     return out
 
 
@@ -582,12 +847,16 @@ def view_ids_obs(ob, site, cls_prefix, f, expected, field, as_set=False):
     if st != "ok":
         ob.fail(site, "raises", f"{st}: {r}", field)
         return st
+    st2, mat = attempt(lambda: set(r) if as_set else list(r))
+    if st2 != "ok":
+        ob.fail(site, "result-not-iterable", f"{type(r).__name__}: {st2} {mat}", field)
+        return st2
     if as_set:
-        got = set(r)
+        got = mat
         if got != set(expected):
             ob.fail(site, cls_prefix, f"got {sorted(map(repr, got))} definition gives {sorted(map(repr, expected))}", field)
         return sids(got)
-    got = list(r)
+    got = mat
     if sorted(map(repr, got)) != sorted(map(repr, expected)):
         ob.fail(site, cls_prefix, f"got {got} definition gives {list(expected)}", field)
     elif got != list(expected):
@@ -595,36 +864,48 @@ def view_ids_obs(ob, site, cls_prefix, f, expected, field, as_set=False):
     return [enc_id(i) for i in got]
 
 
-def filters(ob, view, vname, ids, stat_arg, values, x, y, field):
+def in_order(rev, thunks):
+    """run the calls first-to-last, or last-to-first at odd steps.  Reading the argument variants of one method in
+    palindromic order over consecutive steps makes the LAST call before an edit and the FIRST call after it the
+    same call with the same arguments on the same persistent object — what a memoised answer would survive."""
+    for t in (thunks[::-1] if rev else thunks):
+        t()
+
+
+def filters(ob, view, vname, ids, stat_arg, values, x, y, field, rev=False):
     """view.filterby(stat, x, mode) for every mode against the brute force over `values`"""
     out = {}
-    for m in MODES:
+
+    def one(m):
         val = (x, y) if m == "between" else x
         try:
             exp = [i for i in ids if pycmp(m, values[i], x, y)]
         except TypeError:
             exp = "err:type"
         out[m] = view_ids_obs(ob, f"{vname}.filterby", f"wrong-ids-{m}", lambda: view.filterby(stat_arg, val, m), exp, field)
-    # a callable mode `mode(value, val)`, and an unknown mode (ValueError); predicate only
-    view_ids_obs(ob, f"{vname}.filterby", "wrong-ids-callable", lambda: view.filterby(stat_arg, x, lambda v, val: 2 * v >= val + 1),
-                 [i for i in ids if 2 * values[i] >= x + 1], field)
-    view_ids_obs(ob, f"{vname}.filterby", "unknown-mode-accepted", lambda: view.filterby(stat_arg, x, "approx"), "err:value", field)
+    # plus a callable mode `mode(value, val)`, and an unknown mode (ValueError); predicate only
+    in_order(rev, [lambda m=m: one(m) for m in MODES] + [
+        lambda: view_ids_obs(ob, f"{vname}.filterby", "wrong-ids-callable", lambda: view.filterby(stat_arg, x, lambda v, val: 2 * v >= val + 1),
+                             [i for i in ids if 2 * values[i] >= x + 1], field),
+        lambda: view_ids_obs(ob, f"{vname}.filterby", "unknown-mode-accepted", lambda: view.filterby(stat_arg, x, "approx"), "err:value", field)])
     return out
 
 
-def attr_filters(ob, view, vname, ids, attrs, P, sp, field):
+def attr_filters(ob, view, vname, ids, attrs, P, sp, field, rev=False):
     out = {}
     a, mi, x, y = P["attr"], P["missing"], sp["ax"], sp["ay"]
-    for m in MODES:
+
+    def one(m):
         val = (x, y) if m == "between" else x
         try:
             exp = [i for i in ids if attrs[i].get(a, mi) is not None and pycmp(m, attrs[i].get(a, mi), x, y)]
         except TypeError:
             exp = "err:type"
         out[m] = view_ids_obs(ob, f"{vname}.filterby_attr", f"wrong-ids-{m}", lambda: view.filterby_attr(a, val, m, mi), exp, field)
-    view_ids_obs(ob, f"{vname}.filterby_attr", "wrong-ids-callable", lambda: view.filterby_attr(a, x, lambda v, val: repr(v) >= repr(val), mi),
-                 [i for i in ids if attrs[i].get(a, mi) is not None and repr(attrs[i].get(a, mi)) >= repr(x)], field)
-    view_ids_obs(ob, f"{vname}.filterby_attr", "unknown-mode-accepted", lambda: view.filterby_attr(a, x, "approx", mi), "err:value", field)
+    in_order(rev, [lambda m=m: one(m) for m in MODES] + [
+        lambda: view_ids_obs(ob, f"{vname}.filterby_attr", "wrong-ids-callable", lambda: view.filterby_attr(a, x, lambda v, val: repr(v) >= repr(val), mi),
+                             [i for i in ids if attrs[i].get(a, mi) is not None and repr(attrs[i].get(a, mi)) >= repr(x)], field),
+        lambda: view_ids_obs(ob, f"{vname}.filterby_attr", "unknown-mode-accepted", lambda: view.filterby_attr(a, x, "approx", mi), "err:value", field)])
     return out
 
 
@@ -632,155 +913,295 @@ def frac(q):
     return q[0] / q[1]
 
 
-def observe(held, T, sp, prev_order=None, op=None):
-    """read every held object; returns Obs (observation in the model's response shape + predicate failures)"""
+def observe(held, T, sp, prev_order=None, op=None, step_no=0):
+    """read every held object; returns Obs (observation in the model's response shape + predicate failures).
+    The observation is a sequence of guarded steps: a failure is reported under the site of the xgi call that
+    misbehaved (`raises`, `wrong-type`, `wrong-value`, …); a step whose own bookkeeping crashes on what xgi
+    returned is reported as `<step>-unreadable:<Exception>`."""
     ob = Obs()
     o, P, directed = ob.o, held.P, held.directed
     nvn, evn = type(held.nv).__name__, type(held.ev).__name__
+    mo = P.get("mo", 2)
+    rev = step_no % 2 == 1          # see in_order
+
     # ---- the views list exactly the current IDs, in insertion order
-    for key, view, ids, num in (("nodes", held.nv, T.nodes, "num_nodes"), ("edges", held.ev, T.edges, "num_edges")):
-        vn = type(view).__name__
-        got = list(view)
-        o[key] = [enc_id(i) for i in got]
-        if got != ids:
-            ob.fail(f"{vn}.__iter__", "held-view-stale", f"held view {got} fresh view {ids}", key)
-        if len(view) != len(ids) or getattr(held.H, num) != len(ids) or any((i in view) is False for i in ids) or (ABSENT in view):
-            ob.fail(f"{vn}.__len__", "len-or-contains", f"len {len(view)} ids {ids}", key)
-        if len(set(got)) != len(got):
-            ob.fail(f"{vn}.__iter__", "duplicate-id", f"{got}", key)
-        if prev_order is not None and op is not None and op["op"] in STABLE_OPS:
-            old = [i for i in prev_order[key] if i in set(got)]
-            new = [i for i in got if i not in set(prev_order[key])]
-            if got != old + new:
-                ob.fail(f"{vn}.__iter__", "not-insertion-order", f"before {prev_order[key]} after {got}", key)
-    # ---- stats
+    def views():
+        for key, view, ids, num in (("nodes", held.nv, T.nodes, "num_nodes"), ("edges", held.ev, T.edges, "num_edges")):
+            vn = type(view).__name__
+            st, got = attempt(lambda: list(view))
+            if st != "ok":
+                ob.fail(f"{vn}.__iter__", "raises", f"{st}: {got}", key); o[key] = st
+                continue
+            o[key] = [enc_id(i) for i in got]
+            if got != ids:
+                ob.fail(f"{vn}.__iter__", "held-view-stale", f"held view {got} fresh view {ids}", key)
+            st, facts = attempt(lambda: (len(view), getattr(held.H, num), [i for i in ids if (i in view) is not True], ABSENT in view))
+            if st != "ok" or facts != (len(ids), len(ids), [], False):
+                ob.fail(f"{vn}.__len__", "len-or-contains", f"(len, {num}, current ids not `in` the view, absent id `in` the view) = {facts} for ids {ids}", key)
+            if len(set(got)) != len(got):
+                ob.fail(f"{vn}.__iter__", "duplicate-id", f"{got}", key)
+            if prev_order is not None and op is not None and op["op"] in STABLE_OPS:
+                old = [i for i in prev_order[key] if i in set(got)]
+                new = [i for i in got if i not in set(prev_order[key])]
+                if got != old + new:
+                    ob.fail(f"{vn}.__iter__", "not-insertion-order", f"before {prev_order[key]} after {got}", key)
+    guard(ob, "IDView.__iter__", "views", "nodes", views)
+
+    # ---- the incidence as the HELD views hand it out (members / memberships and the directed variants)
+    def accessors():
+        reads = [("members", held.ev, lambda: held.ev.members(dtype=dict), T.mem), ("memberships", held.nv, held.nv.memberships, T.memb)]
+        if directed:
+            reads += [("tail", held.ev, lambda: held.ev.tail(dtype=dict), T.tail), ("head", held.ev, lambda: held.ev.head(dtype=dict), T.head),
+                      ("dimembers", held.ev, lambda: {e: (set(t), set(h)) for e, (t, h) in held.ev.dimembers(dtype=dict).items()},
+                       {e: (T.tail[e], T.head[e]) for e in T.edges}),
+                      ("dimemberships", held.nv, lambda: {n: (set(i), set(u)) for n, (i, u) in held.nv.dimemberships().items()},
+                       {n: (T.min[n], T.mout[n]) for n in T.nodes})]
+        for nm, view, f, want in reads:
+            st, r = attempt(f)
+            if st == "ok" and isinstance(r, dict) and nm in ("members", "memberships", "tail", "head"):
+                r = {i: set(v) for i, v in r.items()}
+            if st != "ok" or r != want or list(r) != list(want):
+                ob.fail(f"{type(view).__name__}.{nm}", "held-view-incidence-stale", f"{st}: {r!r}"[:200] + f" vs fresh view {want!r}"[:200], "nodes")
+        # single-ID forms, attribute access and `ids` (the same ID at two consecutive steps: query, edit, same query)
+        for view, ids, tab, attr, one in ((held.ev, T.edges, T.mem, T.eattr, "members"), (held.nv, T.nodes, T.memb, T.nattr, "memberships")):
+            vn = type(view).__name__
+            st, r = attempt(lambda: view.ids)
+            if st != "ok" or r != set(ids):
+                ob.fail(f"{vn}.ids", "held-view-stale", f"{st}: {r!r} vs {ids}", "nodes")
+            if not ids:
+                continue
+            i = ids[(step_no // 2) % len(ids)]
+            singles = [(one, lambda: set(getattr(view, one)(i)), tab[i]), ("__getitem__", lambda: view[i], attr[i])]
+            if directed and one == "members":
+                singles += [("tail", lambda: set(view.tail(i)), T.tail[i]), ("head", lambda: set(view.head(i)), T.head[i]),
+                            ("sources", lambda: set(view.sources(i)), T.tail[i]), ("targets", lambda: set(view.targets(i)), T.head[i]),
+                            ("dimembers", lambda: tuple(map(set, view.dimembers(i))), (T.tail[i], T.head[i]))]
+            if directed and one == "memberships":
+                singles += [("dimemberships", lambda: tuple(map(set, view.dimemberships(i))), (T.min[i], T.mout[i]))]
+            for nm, f, want in singles:
+                st, r = attempt(f)
+                if st != "ok" or r != want:
+                    ob.fail(f"{vn}.{nm}", "held-view-incidence-stale", f"{nm}({i!r}): {st}: {r!r} vs fresh view {want!r}"[:300], "nodes")
+    guard(ob, "IDView.members", "incidence-accessors", "nodes", accessors)
+
+    # ---- stats: every (stat x argument combination), every output format
     tn, te = truth_stats(T, P, "n"), truth_stats(T, P, "e")
-    o["nstats"] = {nm: stat_forms(ob, held.ns[nm], T.nodes, tn[nm], KIND.get(nm, "num"), "IDStat", "nstats") for nm in held.ns}
-    o["estats"] = {nm: stat_forms(ob, held.es[nm], T.edges, te[nm], KIND.get(nm, "num"), "IDStat", "estats") for nm in held.es}
+    o["nstats"] = {nm: guard(ob, "IDStat.asdict", "stat:" + nm, "nstats",
+                             lambda nm=nm: stat_forms(ob, held.ns[nm], T.nodes, tn[nm], KIND.get(nm, "num"), "IDStat", "nstats")) for nm in held.ns}
+    o["estats"] = {nm: guard(ob, "IDStat.asdict", "stat:" + nm, "estats",
+                             lambda nm=nm: stat_forms(ob, held.es[nm], T.edges, te[nm], KIND.get(nm, "num"), "IDStat", "estats")) for nm in held.es}
+
     # degree = |memberships|, size = |members|, order = size - 1, handshake(s) — on the held stats' own output
-    rd = lambda s: attempt(s.asdict)
-    dn, se, orr = rd(held.ns["degree"]), rd(held.es["size"]), rd(held.es["order"])
-    if dn[0] == se[0] == orr[0] == "ok":
-        if any(orr[1][e] != se[1][e] - 1 for e in se[1] if e in orr[1]):
-            ob.fail("IDStat.asdict", "order-not-size-minus-one", f"order {orr[1]} size {se[1]}", "estats")
-        if sum(dn[1].values()) != sum(se[1].values()):
-            ob.fail("IDStat.asdict", "handshake", f"sum degree {sum(dn[1].values())} != sum size {sum(se[1].values())}", "nstats")
-    if directed:
-        i_, o_ = rd(held.ns["in_degree"]), rd(held.ns["out_degree"])
-        t_, h_ = rd(held.es["tail_size"]), rd(held.es["head_size"])
-        if i_[0] == o_[0] == t_[0] == h_[0] == "ok":
-            if sum(o_[1].values()) != sum(t_[1].values()):
-                ob.fail("IDStat.asdict", "handshake-out-tail", f"sum out_degree {sum(o_[1].values())} != sum tail_size {sum(t_[1].values())}", "nstats")
-            if sum(i_[1].values()) != sum(h_[1].values()):
-                ob.fail("IDStat.asdict", "handshake-in-head", f"sum in_degree {sum(i_[1].values())} != sum head_size {sum(h_[1].values())}", "nstats")
-    # single-ID access of a held stat
-    for nm, tab, st_ in (("degree", tn["degree"], held.ns["degree"]), ("size", te["size"], held.es["size"])):
-        for i in list(tab)[:3]:
-            s1, v = attempt(lambda: st_[i])
-            if s1 != "ok" or v != tab[i]:
-                ob.fail("IDStat.__getitem__", "wrong-value", f"{nm}[{i!r}] = {v!r} vs {tab[i]!r}", "nstats" if nm == "degree" else "estats")
-    held.held_filtered(ob, T)
+    def identities():
+        rd = lambda s: attempt(s.asdict)
+        isd = lambda *rs: all(r[0] == "ok" and isinstance(r[1], dict) and all(isnum(v) for v in r[1].values()) for r in rs)
+        dn, se, orr = rd(held.ns["degree"]), rd(held.es["size"]), rd(held.es["order"])
+        if isd(dn, se, orr):
+            if any(orr[1][e] != se[1][e] - 1 for e in se[1] if e in orr[1]):
+                ob.fail("IDStat.asdict", "order-not-size-minus-one", f"order {orr[1]} size {se[1]}", "estats")
+            if sum(dn[1].values()) != sum(se[1].values()):
+                ob.fail("IDStat.asdict", "handshake", f"sum degree {sum(dn[1].values())} != sum size {sum(se[1].values())}", "nstats")
+        if directed:
+            i_, o_ = rd(held.ns["in_degree"]), rd(held.ns["out_degree"])
+            t_, h_ = rd(held.es["tail_size"]), rd(held.es["head_size"])
+            if isd(i_, o_, t_, h_):
+                if sum(o_[1].values()) != sum(t_[1].values()):
+                    ob.fail("IDStat.asdict", "handshake-out-tail", f"sum out_degree {sum(o_[1].values())} != sum tail_size {sum(t_[1].values())}", "nstats")
+                if sum(i_[1].values()) != sum(h_[1].values()):
+                    ob.fail("IDStat.asdict", "handshake-in-head", f"sum in_degree {sum(i_[1].values())} != sum head_size {sum(h_[1].values())}", "nstats")
+            for pre in ("tail_", "head_"):
+                a, b = rd(held.es[pre + "size"]), rd(held.es[pre + "order"])
+                if isd(a, b) and any(b[1][e] != a[1][e] - 1 for e in a[1] if e in b[1]):
+                    ob.fail("IDStat.asdict", "order-not-size-minus-one", f"{pre}order {b[1]} {pre}size {a[1]}", "estats")
+        # single-ID access of every held numeric stat (rotating over the IDs)
+        for kk, stats, tr, ids, fld in (("n", held.ns, tn, T.nodes, "nstats"), ("e", held.es, te, T.edges, "estats")):
+            if not ids:
+                continue
+            for j, (nm, st_) in enumerate(stats.items()):
+                i = ids[(step_no + j) % len(ids)]
+                want = tr[nm][i]
+                if isinstance(want, str) and want in ("err:type", "$any"):
+                    continue
+                s1, v = attempt(lambda: st_[i])
+                if s1 != "ok" or not same_vals(v, want) if not isinstance(want, dict) else (s1 != "ok" or v != want):
+                    ob.fail("IDStat.__getitem__", "wrong-value", f"{nm}[{i!r}] = {s1} {v!r} vs {want!r}", fld)
+            s1, v = attempt(lambda: stats[next(iter(stats))][ABSENT])
+            if s1 != "err:lib":
+                ob.fail("IDStat.__getitem__", "absent-id", f"stat[{ABSENT!r}]: {s1} {v!r}", fld)
+    guard(ob, "IDStat.asdict", "identities", "nstats", identities)
+
+    # ---- aggregates of every numeric held stat against their definitions on asdict()
+    def aggs(stats, ids, fld, modelled):
+        res = {}
+        num = [nm for nm in stats if KIND.get(nm, "num") == "num"]
+        for j, nm in enumerate(num):
+            # the stats the model evaluates too at every step, the others in rotation (each every 3rd step)
+            if not ids or (nm not in modelled and (j + step_no) % 3):
+                continue
+            st_ = stats[nm]
+            r = guard(ob, "IDStat.max", "aggregates:" + nm, fld,
+                      lambda: aggregates(ob, st_, ids, mo, fld, nm, central=(j == step_no % len(num))))
+            if nm in modelled:
+                res[nm] = r if isinstance(r, dict) else "$skip"
+        for nm in modelled:
+            res.setdefault(nm, "$skip")
+        return res
+    o["nagg"] = aggs(held.ns, T.nodes, "nagg", NAGG[directed])
+    o["eagg"] = aggs(held.es, T.edges, "eagg", EAGG[directed])
+
+    guard(ob, "IDView.__call__", "held-filtered-views", "held_filtered", lambda: held.held_filtered(ob, T))
+
     # ---- multi
-    o["nmulti"] = multi_forms(ob, held.nmulti, [held.ns[k] for k in NMULTI], NMULTI, [KIND.get(k, "num") for k in NMULTI], T.nodes, "nmulti")
-    o["emulti"] = multi_forms(ob, held.emulti, [held.es[k] for k in EMULTI], EMULTI, [KIND.get(k, "num") for k in EMULTI], T.edges, "emulti")
+    kinds = lambda ks: [KIND.get(k, "num") for k in ks]
+    n2, e2 = NMULTI2[directed], EMULTI2[directed]
+    for key, multi, stats, ks, ids in (("nmulti", held.nmulti, held.ns, NMULTI, T.nodes), ("emulti", held.emulti, held.es, EMULTI, T.edges),
+                                       ("nmulti2", held.nmulti2, held.ns, n2, T.nodes), ("emulti2", held.emulti2, held.es, e2, T.edges)):
+        o[key] = guard(ob, "MultiIDStat.asdict", "multi-stat", key,
+                       lambda: multi_forms(ob, multi, [stats[k] for k in ks], ks, kinds(ks), ids, key,
+                                           pandas=(not key.endswith("2") or step_no % 3 == 0)))
+
     # ---- filtered views created now from the held views
-    for key, view, ids, bunch_key, stats_f, tstats, vn in (("nview", held.nv, T.nodes, "nbunch", node_stats, tn, nvn),
-                                                            ("eview", held.ev, T.edges, "ebunch", edge_stats, te, evn)):
-        bunch = [tuple(b) if isinstance(b, list) else b for b in sp[bunch_key]]
-        exp = [i for i in ids if i in set(bunch)] if set(bunch) <= set(ids) else "err:lib"
-        st, fv = attempt(lambda: view(bunch))
-        skey = key[0] + "vstats"
-        if isinstance(exp, str):
-            if st != exp:
-                ob.fail(f"{vn}.__call__", "no-exception" if st == "ok" else "wrong-exception", f"bunch {bunch} ids {ids}: {st}", key)
-            o[key] = st if st != "ok" else "$skip"
-            o[skey] = o[key[0] + "vfilter"] = "$skip" if st == "ok" else st
+    def filtered_views():
+        for key, view, ids, bunch_key, stats_f, tstats, vn in (("nview", held.nv, T.nodes, "nbunch", node_stats, tn, nvn),
+                                                                ("eview", held.ev, T.edges, "ebunch", edge_stats, te, evn)):
+            bunch = [tuple(b) if isinstance(b, list) else b for b in sp[bunch_key]]
+            exp = [i for i in ids if i in set(bunch)] if set(bunch) <= set(ids) else "err:lib"
+            st, fv = attempt(lambda: view(bunch))
+            skey = key[0] + "vstats"
+            if isinstance(exp, str):
+                if st != exp:
+                    ob.fail(f"{vn}.__call__", "no-exception" if st == "ok" else "wrong-exception", f"bunch {bunch} ids {ids}: {st}", key)
+                o[key] = st if st != "ok" else "$skip"
+                o[skey] = o[key[0] + "vfilter"] = "$skip" if st == "ok" else st
+                if key == "nview":
+                    o["nvfattr"] = o[skey]
+                continue
+            if st != "ok":
+                ob.fail(f"{vn}.__call__", "raises", f"bunch {bunch}: {st} {fv}", key)
+                o[key] = o[skey] = o[key[0] + "vfilter"] = st
+                if key == "nview":
+                    o["nvfattr"] = st
+                continue
+            st, got = attempt(lambda: list(fv))
+            if st != "ok":
+                ob.fail(f"{vn}.from_view", "result-not-iterable", f"{st}: {got}", key)
+                o[key] = o[skey] = o[key[0] + "vfilter"] = st
+                if key == "nview":
+                    o["nvfattr"] = st
+                continue
+            if got != exp:
+                ob.fail(f"{vn}.from_view", "wrong-ids" if sorted(map(repr, got)) != sorted(map(repr, exp)) else "not-view-order",
+                        f"bunch {bunch}: {got} vs {exp}", key)
+            o[key] = [enc_id(i) for i in got]
+            fs = stats_f(fv, P, directed)
+            names = list(fs)
+            pd_for = names[step_no % len(names)]          # pandas output of one (rotating) stat per filtered view
+            o[skey] = {nm: stat_forms(ob, fs[nm], exp, {i: tstats[nm][i] for i in exp}, KIND.get(nm, "num"), "IDStat", skey,
+                                      pandas=(nm == pd_for)) for nm in fs}
+            num = [nm for nm in names if KIND.get(nm, "num") == "num"]
+            pick = num[step_no % len(num)]
+            if exp:
+                aggregates(ob, fs[pick], exp, mo, skey, pick + " on a filtered view")
             if key == "nview":
-                o["nvfattr"] = o[skey]
-            continue
-        if st != "ok":
-            ob.fail(f"{vn}.__call__", "raises", f"bunch {bunch}: {st} {fv}", key)
-            o[key] = o[skey] = o[key[0] + "vfilter"] = st
-            if key == "nview":
-                o["nvfattr"] = st
-            continue
-        got = list(fv)
-        if got != exp:
-            ob.fail(f"{vn}.from_view", "wrong-ids" if sorted(map(repr, got)) != sorted(map(repr, exp)) else "not-view-order",
-                    f"bunch {bunch}: {got} vs {exp}", key)
-        o[key] = [enc_id(i) for i in got]
-        fs = stats_f(fv, P, directed)
-        o[skey] = {nm: stat_forms(ob, fs[nm], exp, {i: tstats[nm][i] for i in exp}, KIND.get(nm, "num"), "IDStat", skey) for nm in fs}
-        if key == "nview":
-            o["nvfilter"] = {"degree": filters(ob, fv, vn, exp, "degree", tn["degree"], sp["x"], sp["y"], "nvfilter")}
-            o["nvfattr"] = attr_filters(ob, fv, vn, exp, T.nattr, P, sp, "nvfattr")
-        else:
-            o["evfilter"] = {"size": filters(ob, fv, vn, exp, "size", te["size"], sp["x"], sp["y"], "evfilter")}
+                o["nvfilter"] = {"degree": filters(ob, fv, vn, exp, "degree", tn["degree"], sp["x"], sp["y"], "nvfilter")}
+                o["nvfattr"] = attr_filters(ob, fv, vn, exp, T.nattr, P, sp, "nvfattr")
+            else:
+                o["evfilter"] = {"size": filters(ob, fv, vn, exp, "size", te["size"], sp["x"], sp["y"], "evfilter")}
+    guard(ob, "IDView.__call__", "filtered-views", "nview", filtered_views)
+
     # ---- filterby (by name, by held stat object) / filterby_attr, every mode
-    x, y = sp["x"], sp["y"]
-    o["nfilter"] = {"degree": filters(ob, held.nv, nvn, T.nodes, "degree", tn["degree"], x, y, "nfilter"),
-                    "degree_o": filters(ob, held.nv, nvn, T.nodes, held.ns["degree_o"], tn["degree_o"], x, y, "nfilter")}
-    if directed:
-        o["nfilter"]["in_degree"] = filters(ob, held.nv, nvn, T.nodes, "in_degree", tn["in_degree"], x, y, "nfilter")
-        o["nfilter"]["out_degree_o"] = filters(ob, held.nv, nvn, T.nodes, held.ns["out_degree_o"], tn["out_degree_o"], x, y, "nfilter")
-    else:
-        o["nfilter"]["and"] = filters(ob, held.nv, nvn, T.nodes, "average_neighbor_degree", tn["and"], frac(sp["qx"]), frac(sp["qy"]), "nfilter")
-    o["efilter"] = {"size": filters(ob, held.ev, evn, T.edges, "size", te["size"], x, y, "efilter"),
-                    "order": filters(ob, held.ev, evn, T.edges, held.es["order"], te["order"], x, y, "efilter"),
-                    "size_d": filters(ob, held.ev, evn, T.edges, held.es["size_d"], te["size_d"], x, y, "efilter")}
-    if directed:
-        o["efilter"]["tail_size"] = filters(ob, held.ev, evn, T.edges, "tail_size", te["tail_size"], x, y, "efilter")
-        o["efilter"]["head_order"] = filters(ob, held.ev, evn, T.edges, held.es["head_order"], te["head_order"], x, y, "efilter")
-    o["nfattr"] = attr_filters(ob, held.nv, nvn, T.nodes, T.nattr, P, sp, "nfattr")
-    o["efattr"] = attr_filters(ob, held.ev, evn, T.edges, T.eattr, P, sp, "efattr")
+    def filterbys():
+        x, y = sp["x"], sp["y"]
+        o["nfilter"], o["efilter"] = {}, {}
+        nf = lambda key, stat, vals, a=x, b=y: (lambda: o["nfilter"].__setitem__(key, filters(ob, held.nv, nvn, T.nodes, stat, vals, a, b, "nfilter", rev)))
+        ef = lambda key, stat, vals: (lambda: o["efilter"].__setitem__(key, filters(ob, held.ev, evn, T.edges, stat, vals, x, y, "efilter", rev)))
+        calls = [nf("degree", "degree", tn["degree"]), nf("degree_o", held.ns["degree_o"], tn["degree_o"])]
+        if directed:
+            calls += [nf("in_degree", "in_degree", tn["in_degree"]), nf("out_degree_o", held.ns["out_degree_o"], tn["out_degree_o"])]
+        else:
+            calls += [nf("and", "average_neighbor_degree", tn["and"], frac(sp["qx"]), frac(sp["qy"]))]
+        calls += [ef("size", "size", te["size"]), ef("order", held.es["order"], te["order"]), ef("size_d", held.es["size_d"], te["size_d"])]
+        if directed:
+            calls += [ef("tail_size", "tail_size", te["tail_size"]), ef("head_order", held.es["head_order"], te["head_order"])]
+        # one more (rotating) held stat of each view, predicate only: any numeric stat can be filtered on
+        for view, vn, ids, stats, tr, fld in ((held.nv, nvn, T.nodes, held.ns, tn, "nfilter"), (held.ev, evn, T.edges, held.es, te, "efilter")):
+            num = [nm for nm in stats if KIND.get(nm, "num") == "num" and nm != "and"
+                   and all(isnum(v) for v in tr[nm].values())]
+            if num:
+                nm = num[(step_no // 2) % len(num)]
+                calls.append(lambda view=view, vn=vn, ids=ids, stats=stats, tr=tr, fld=fld, nm=nm:
+                             filters(ob, view, vn, ids, stats[nm], tr[nm], x, y, fld, rev))
+        calls += [lambda: o.__setitem__("nfattr", attr_filters(ob, held.nv, nvn, T.nodes, T.nattr, P, sp, "nfattr", rev)),
+                  lambda: o.__setitem__("efattr", attr_filters(ob, held.ev, evn, T.edges, T.eattr, P, sp, "efattr", rev))]
+        in_order(rev, calls)
+    guard(ob, "IDView.filterby", "filterby", "nfilter", filterbys)
+
     # ---- neighbors
-    s = sp["sp"]
-    for key, view, k, vn in (("nnbr", held.nv, "n", nvn), ("enbr", held.ev, "e", evn)):
-        rows = []
-        for i in T.keys(k):
-            a = view_ids_obs(ob, f"{vn}.neighbors", "differs-from-definition", lambda: view.neighbors(i), nbrs(T, k, i, 1), key, as_set=True)
-            b = view_ids_obs(ob, f"{vn}.neighbors", "differs-from-definition-s", lambda: view.neighbors(i, s), nbrs(T, k, i, s), key, as_set=True)
-            rows.append([enc_id(i), a, b])
-        o[key] = rows
-    o["nbr_missing"] = [view_ids_obs(ob, f"{nvn}.neighbors", "absent-id", lambda: held.nv.neighbors(ABSENT), "err:lib", "nbr_missing", as_set=True),
-                        view_ids_obs(ob, f"{evn}.neighbors", "absent-id", lambda: held.ev.neighbors(ABSENT), "err:lib", "nbr_missing", as_set=True)]
-    for i in range(2):       # both raised the library's error: the model says the same
-        o["nbr_missing"][i] = "err:lib" if o["nbr_missing"][i] == "$skip" else o["nbr_missing"][i]
+    def neighbours():
+        s = sp["sp"]
+        for key, view, k, vn in (("nnbr", held.nv, "n", nvn), ("enbr", held.ev, "e", evn)):
+            rows = {}
+            for i in (T.keys(k)[::-1] if rev else T.keys(k)):
+                r = {}
+                in_order(rev, [
+                    lambda: r.__setitem__("a", view_ids_obs(ob, f"{vn}.neighbors", "differs-from-definition", lambda: view.neighbors(i), nbrs(T, k, i, 1), key, as_set=True)),
+                    lambda: r.__setitem__("b", view_ids_obs(ob, f"{vn}.neighbors", "differs-from-definition-s", lambda: view.neighbors(i, s), nbrs(T, k, i, s), key, as_set=True))])
+                rows[i] = [enc_id(i), r["a"], r["b"]]
+            o[key] = [rows[i] for i in T.keys(k)]
+        o["nbr_missing"] = [view_ids_obs(ob, f"{nvn}.neighbors", "absent-id", lambda: held.nv.neighbors(ABSENT), "err:lib", "nbr_missing", as_set=True),
+                            view_ids_obs(ob, f"{evn}.neighbors", "absent-id", lambda: held.ev.neighbors(ABSENT), "err:lib", "nbr_missing", as_set=True)]
+        for i in range(2):       # both raised the library's error: the model says the same
+            o["nbr_missing"][i] = "err:lib" if o["nbr_missing"][i] == "$skip" else o["nbr_missing"][i]
+    guard(ob, "IDView.neighbors", "neighbors", "nnbr", neighbours)
+
     # ---- lookup / duplicates
-    for key, view, k, vn, lk in (("nlookup", held.nv, "n", nvn, "nlookup"), ("elookup", held.ev, "e", evn, "elookup")):
-        sought = [tuple(b) if isinstance(b, list) else b for b in sp[lk]]
-        exp = [i for i in T.keys(k) if T.tab(k)[i] == set(sought)]
-        o[key] = view_ids_obs(ob, f"{vn}.lookup", "differs-from-definition", lambda: view.lookup(sought), exp, key)
-    for key, view, k, vn in (("ndups", held.nv, "n", nvn), ("edups", held.ev, "e", evn)):
-        st, r = attempt(view.duplicates)
-        if st != "ok":
-            ob.fail(f"{vn}.duplicates", "raises", f"{st}: {r}", key); o[key] = st
-            continue
-        got = list(r)
-        o[key] = [enc_id(i) for i in got]
-        bad = None
-        for c in classes(T, k):
-            rep = [i for i in c if i not in set(got)]
-            if (len(c) == 1 and rep != c) or (len(c) > 1 and len(rep) != 1):
-                bad = f"class {c} (same bipartite neighbours): reported {[i for i in c if i in set(got)]}"
-        if bad or not set(got) <= set(T.keys(k)):
-            ob.fail(f"{vn}.duplicates", "not-all-but-one-per-class", bad or f"{got}", key)
-        elif got != [i for i in T.keys(k) if i in set(got)]:
-            ob.fail(f"{vn}.duplicates", "not-view-order", f"{got}", key)
+    def lookups():
+        for key, view, k, vn, lk in (("nlookup", held.nv, "n", nvn, "nlookup"), ("elookup", held.ev, "e", evn, "elookup")):
+            sought = [tuple(b) if isinstance(b, list) else b for b in sp[lk]]
+            exp = [i for i in T.keys(k) if T.tab(k)[i] == set(sought)]
+            o[key] = view_ids_obs(ob, f"{vn}.lookup", "differs-from-definition", lambda: view.lookup(sought), exp, key)
+        for key, view, k, vn in (("ndups", held.nv, "n", nvn), ("edups", held.ev, "e", evn)):
+            st, r = attempt(lambda: list(view.duplicates()))
+            if st != "ok":
+                ob.fail(f"{vn}.duplicates", "raises", f"{st}: {r}", key); o[key] = st
+                continue
+            got = r
+            o[key] = [enc_id(i) for i in got]
+            bad = None
+            for c in classes(T, k):
+                rep = [i for i in c if i not in set(got)]
+                if (len(c) == 1 and rep != c) or (len(c) > 1 and len(rep) != 1):
+                    bad = f"class {c} (same bipartite neighbours): reported {[i for i in c if i in set(got)]}"
+            if bad or not set(got) <= set(T.keys(k)):
+                ob.fail(f"{vn}.duplicates", "not-all-but-one-per-class", bad or f"{got}", key)
+            elif got != [i for i in T.keys(k) if i in set(got)]:
+                ob.fail(f"{vn}.duplicates", "not-view-order", f"{got}", key)
+    guard(ob, "IDView.lookup", "lookup-duplicates", "nlookup", lookups)
+
     # ---- isolates / singletons / empty / maximal
-    iso = [n for n in T.nodes if not T.memb[n]]
-    o["isolates"] = view_ids_obs(ob, f"{nvn}.isolates", "differs-from-definition", held.nv.isolates, iso, "isolates")
-    emp = [e for e in T.edges if not T.mem[e]]
-    o["empty"] = view_ids_obs(ob, f"{evn}.empty", "differs-from-definition", held.ev.empty, emp, "empty")
-    if not directed:
+    def queries():
+        iso = [n for n in T.nodes if not T.memb[n]]
         iso2 = [n for n in T.nodes if all(len(T.mem[e]) == 1 for e in T.memb[n])]
-        o["isolates_is"] = view_ids_obs(ob, f"{nvn}.isolates", "differs-from-definition-ignore-singletons",
-                                        lambda: held.nv.isolates(ignore_singletons=True), iso2, "isolates_is")
-        o["singletons"] = view_ids_obs(ob, f"{evn}.singletons", "differs-from-definition", held.ev.singletons,
-                                       [e for e in T.edges if len(T.mem[e]) == 1], "singletons")
-        o["maximal"] = view_ids_obs(ob, f"{evn}.maximal", "differs-from-definition", held.ev.maximal, maximal_def(T, False), "maximal")
-        o["maximal_strict"] = view_ids_obs(ob, f"{evn}.maximal", "differs-from-definition-strict",
-                                           lambda: held.ev.maximal(strict=True), maximal_def(T, True), "maximal_strict")
+        in_order(rev, [lambda: o.__setitem__("isolates", view_ids_obs(ob, f"{nvn}.isolates", "differs-from-definition", held.nv.isolates, iso, "isolates"))]
+                 + ([] if directed else [
+                     lambda: o.__setitem__("isolates_is", view_ids_obs(ob, f"{nvn}.isolates", "differs-from-definition-ignore-singletons",
+                                                                       lambda: held.nv.isolates(ignore_singletons=True), iso2, "isolates_is"))]))
+        emp = [e for e in T.edges if not T.mem[e]]
+        o["empty"] = view_ids_obs(ob, f"{evn}.empty", "differs-from-definition", held.ev.empty, emp, "empty")
+        if not directed:
+            o["singletons"] = view_ids_obs(ob, f"{evn}.singletons", "differs-from-definition", held.ev.singletons,
+                                           [e for e in T.edges if len(T.mem[e]) == 1], "singletons")
+            in_order(rev, [
+                lambda: o.__setitem__("maximal", view_ids_obs(ob, f"{evn}.maximal", "differs-from-definition", held.ev.maximal,
+                                                              maximal_def(T, False), "maximal")),
+                lambda: o.__setitem__("maximal_strict", view_ids_obs(ob, f"{evn}.maximal", "differs-from-definition-strict",
+                                                                     lambda: held.ev.maximal(strict=True), maximal_def(T, True), "maximal_strict"))])
+        # DiNodeView.isolates takes no `ignore_singletons`; DiEdgeView has no singletons() / maximal(): what these would
+        # return is what the same filters return on the directed views (size = |tail ∪ head|), so that is what is read
+        else:
+            o["singletons"] = view_ids_obs(ob, f"{evn}.filterby", "singletons-differs-from-definition", lambda: held.ev.filterby("size", 1),
+                                           [e for e in T.edges if len(T.mem[e]) == 1], "singletons")
+    guard(ob, "IDView.isolates", "isolates-singletons-empty-maximal", "isolates", queries)
     return ob
 
 
@@ -811,7 +1232,7 @@ FAMILIES = {
 
 
 def observe_request(P, sp, T):
-    r = {"op": "observe", "k": P["k"], "w": P["w"], "d": P["d"], "attr": P["attr"], "missing": enc_val_req(P["missing"]),
+    r = {"op": "observe", "k": P["k"], "w": P["w"], "d": P["d"], "attr": P["attr"], "missing": enc_val_req(P["missing"]), "mo": P.get("mo", 2),
          "x": sp["x"], "y": sp["y"], "qx": sp["qx"], "qy": sp["qy"], "ax": enc_val_req(sp["ax"]), "ay": enc_val_req(sp["ay"]),
          "sp": sp["sp"], "nbunch": sp["nbunch"], "ebunch": sp["ebunch"], "nlookup": sp["nlookup"], "elookup": sp["elookup"],
          # oracle: the order in which `set(view ids)` iterates (the order `_val` is built in)
@@ -827,6 +1248,7 @@ def run_history(fam, ops, P, rng=None, steps=None, fixed_sp=None, want_requests=
     held = Held(fam.net(box), P, fam.directed)
     recs = []
     prev_order = {"nodes": [], "edges": []}
+    cur_sp = None
     for i, op in enumerate(ops):
         out, exc = M.apply_impl(box, op)
         H = fam.net(box)
@@ -840,10 +1262,18 @@ def run_history(fam, ops, P, rng=None, steps=None, fixed_sp=None, want_requests=
             rec["skipped"] = "state violates the incidence invariant (C01/C02/C03's business)" if st == "ok" else f"state unreadable: {st}"
             prev_order = None
         else:
-            sp = fixed_sp if fixed_sp is not None else (steps[i] if steps is not None else gen_step(rng, T))
+            if fixed_sp is not None:
+                sp = fixed_sp
+            elif steps is not None:
+                sp = steps[i]
+            elif P.get("fixsp") and cur_sp is not None and i % 4:
+                sp = cur_sp        # the same query arguments before and after the edit (refreshed every 4th call)
+            else:
+                sp = gen_step(rng, T)
+            cur_sp = sp
             rec["sp"], rec["T"] = sp, T
             try:
-                rec["obs"] = observe(held, T, sp, None if rebuilt else prev_order, op)
+                rec["obs"] = observe(held, T, sp, None if rebuilt else prev_order, op, step_no=i)
             except Exception as e:  # noqa
                 # reading the held views / stats crashed in a way no clause anticipated (never happens on a tree where the
                 # views are live): the observation itself is the failure
@@ -886,8 +1316,8 @@ def record_violation(ctx, fam, ops, i, P, sp, f, shrunk):
                               "params": P, "step": sp}, detail=detail)
 
 
-def compare_model(ctx, fam, histories, all_recs):
-    """send the histories (replay) or the states (load/dload) plus the observe requests to the driver and diff"""
+def model_requests(ctx, fam, histories, all_recs):
+    """the histories (replay) or the states (load/dload) plus the observe requests, for the driver"""
     max_edges = ctx.n(28, 10 ** 9)      # quick tier: installed states with many edges are checked by the predicate only
     reqs, index = [], []
     for hi, (ops, P) in enumerate(histories):
@@ -908,7 +1338,11 @@ def compare_model(ctx, fam, histories, all_recs):
             if fam.mode == "dload":
                 q["op"] = "dobserve"
             reqs.append(q); index.append(("obs", hi, oi))
-    resps = run_driver("C06", reqs)
+    return reqs, index
+
+
+def compare_model(ctx, fam, histories, all_recs, reqs, index, resps):
+    """diff the driver's answers with the observations"""
     dead, dis = set(), []
     for r, ix, q in zip(resps, index, reqs):
         if ix is None:
@@ -960,12 +1394,26 @@ def compare_model(ctx, fam, histories, all_recs):
     return dis
 
 
+_POOL = ThreadPoolExecutor(max_workers=6)
+
+
+def _timed_driver(reqs):
+    t = time.time()
+    return run_driver("C06", reqs), time.time() - t
+
+
 def run_family(ctx, fam, n_hist, model_ok, shrunk, hist_len=(1, 22), weights=None, extra=()):
+    """run the histories of one class on the implementation (predicate after every call) and START the model's
+    evaluation of the same observations in the background (the driver is a separate process); `collect` diffs"""
     rng = ctx.rng
     t0 = time.time()
     histories = [(copy.deepcopy(h["ops"]), h["params"]) for h in extra if h.get("class") == fam.name]
     for _ in range(n_hist):
-        histories.append((fam.M.gen_history(rng, hist_len[0], hist_len[1], weights), gen_params(rng)))
+        ops, P = fam.M.gen_history(rng, hist_len[0], hist_len[1], weights), gen_params(rng)
+        if P["numw"]:
+            numeric_weights(ops, P["w"], rng)
+            ctx.stats[f"{fam.name}:histories_with_integer_weights"] += 1
+        histories.append((ops, P))
     all_recs = []
     for ops, P in histories:
         recs = run_history(fam, ops, P, rng=rng)
@@ -983,6 +1431,7 @@ def run_family(ctx, fam, n_hist, model_ok, shrunk, hist_len=(1, 22), weights=Non
                 ctx.nontrivial.add(jhash([fam.name, T.tables()]))
             if rec["rebuilt"]:
                 ctx.stats[f"{fam.name}:held_objects_recreated_after_copy"] += 1
+            coverage(ctx, fam, rec["obs"].o)
             seen = set()
             for f in rec["obs"].fails:
                 if (f[0], f[1]) in seen:
@@ -995,13 +1444,48 @@ def run_family(ctx, fam, n_hist, model_ok, shrunk, hist_len=(1, 22), weights=Non
                 ctx.sample({"class": fam.name, "ops": [fam.M.to_request(o) for o in ops[:5]], "params": P,
                             "nodes": last["obs"].o.get("nodes"), "degree": ((last["obs"].o.get("nstats") or {}).get("degree") or {}).get("asdict")
                             if isinstance((last["obs"].o.get("nstats") or {}).get("degree"), dict) else None}, cap=3)
-    ctx.stats[f"{fam.name}:histories"] = len(histories)
-    t1 = time.time()
-    dis = compare_model(ctx, fam, histories, all_recs) if model_ok else []
+    ctx.stats[f"{fam.name}:histories"] += len(histories)
     tm = ctx.extra.setdefault("timing_s", {})
-    tm[f"{fam.name}:implementation+predicate"] = round(tm.get(f"{fam.name}:implementation+predicate", 0) + t1 - t0, 1)
-    tm[f"{fam.name}:model"] = round(tm.get(f"{fam.name}:model", 0) + time.time() - t1, 1)
-    return dis, histories, all_recs
+    tm[f"{fam.name}:implementation+predicate"] = round(tm.get(f"{fam.name}:implementation+predicate", 0) + time.time() - t0, 1)
+    pending = None
+    if model_ok:
+        reqs, index = model_requests(ctx, fam, histories, all_recs)
+        pending = (reqs, index, _POOL.submit(_timed_driver, reqs))
+    return {"fam": fam, "histories": histories, "all_recs": all_recs, "pending": pending, "dis": []}
+
+
+def collect(ctx, res):
+    """wait for the model's answers of one run_family and diff them; returns the disagreements"""
+    if res["pending"] is None:
+        return []
+    reqs, index, fut = res["pending"]
+    resps, dt = fut.result()
+    res["pending"] = None
+    fam = res["fam"]
+    tm = ctx.extra.setdefault("timing_s", {})
+    tm[f"{fam.name}:model(background)"] = round(tm.get(f"{fam.name}:model(background)", 0) + dt, 1)
+    res["dis"] = compare_model(ctx, fam, res["histories"], res["all_recs"], reqs, index, resps)
+    return res["dis"]
+
+
+def coverage(ctx, fam, o):
+    """measured: how often each held stat / aggregate / table actually produced values (not an exception, not $skip)"""
+    for grp in ("nstats", "estats"):
+        for nm, v in (o.get(grp) or {}).items():
+            ctx.stats[f"{fam.name}:read:{grp}:{nm}:" + ("values" if isinstance(v, dict) else "raises-or-skipped")] += 1
+    ns = o.get("nstats") or {}
+    for b in ("degree", "in_degree", "out_degree"):
+        u, w = ns.get(b), ns.get(b + "_w")
+        if isinstance(u, dict) and isinstance(w, dict) and u.get("asdict") != w.get("asdict"):
+            ctx.stats[f"{fam.name}:read:{b}_w-differs-from-{b}"] += 1     # a weight other than the default 1 was summed
+    for grp in ("nagg", "eagg"):
+        for nm, v in (o.get(grp) or {}).items():
+            if isinstance(v, dict):
+                ctx.stats[f"{fam.name}:read:{grp}:{nm}"] += 1
+    for grp in ("nmulti", "emulti", "nmulti2", "emulti2"):
+        v = o.get(grp)
+        if isinstance(v, dict) and isinstance(v.get("asnumpy"), list):
+            ctx.stats[f"{fam.name}:read:{grp}:asnumpy-compared"] += 1
 
 
 def small_scope(n_nodes, max_edges):
@@ -1040,17 +1524,27 @@ def corpus_cases():
 def run(ctx):
     ok = build_and_audit(ctx, "XgiModel.Props.C06", ["XgiModel.C06.Drive"])
     ctx.extra["timing_s"] = {"build+audit": round(time.time() - ctx.t0, 1)}
-    ctx.rule = ("edit histories of 1-22 public mutator calls (generators of harness/hg.py, sc.py, dhg.py) on Hypergraph, "
-                "SimplicialComplex and DiHypergraph; views, stat objects (degree with order/weight, average_neighbor_degree, "
-                "attrs with missing, size/order with degree, in/out degree, head/tail size/order) and multi-stat objects are "
-                "created once before the first call and read after every call, together with filtered views, filterby (7 modes, "
-                "by name and by stat object), filterby_attr (7 modes), neighbors (s), lookup, duplicates, isolates, singletons, "
-                "empty, maximal (strict); non-trivial = distinct state (incidence + attributes) with an edge of >= 2 members "
-                "reached through >= 2 op kinds")
+    ctx.rule = ("edit histories of 1-22 public mutator calls (generators of harness/hg.py, sc.py, dhg.py; in ~65 % of the histories "
+                "the values stored under the weight key are made integers) on Hypergraph, SimplicialComplex and DiHypergraph. Created ONCE "
+                "before the first call and read after every call: the two views; every (stat x argument combination) — degree / "
+                "in_degree / out_degree each with (), (order), (weight), (order, weight) [12 directed branches], "
+                "average_neighbor_degree, size / order / tail_* / head_* each with and without degree=, attrs(), attrs(a), "
+                "attrs(a, missing), arguments by keyword or positionally — in asdict / aslist / asnumpy / aspandas / [id]; the "
+                "aggregates max min sum mean median mode std var moment(raw, central) argmax argmin argsort(reverse) unique(counts) "
+                "items iter len of every numeric stat against their definitions on asdict(); two multi-stat tables per view (one "
+                "mixed, one numeric) in asdict / aslist (inner list|dict, transposed or not) / asnumpy / aspandas; members / "
+                "memberships / head / tail / dimembers / dimemberships / sources / targets / view[id] / ids of the held views. "
+                "Queries on the held views: filtered views and every stat on them, filterby (7 modes + callable + unknown mode; "
+                "by name and by held stat object, one more rotating stat per step), filterby_attr (7 modes), neighbors (s), "
+                "lookup, duplicates, isolates (ignore_singletons), singletons, empty, maximal (strict). Query / edit / same "
+                "query: the argument variants of one method are called in palindromic order over consecutive steps and in half "
+                "of the histories the query arguments stay fixed for 4 calls, so the last call before an edit and the first "
+                "call after it are the same call on the same persistent object. non-trivial = distinct state (incidence + "
+                "attributes) with an edge of >= 2 members reached through >= 2 op kinds")
     shrunk = set()
     extra = corpus_cases()
     ctx.stats["corpus_histories"] = len(extra)
-    plan = [("Hypergraph", ctx.n(70, 1400)), ("SimplicialComplex", ctx.n(22, 180)), ("DiHypergraph", ctx.n(36, 650))]
+    plan = [("Hypergraph", ctx.n(60, 1000)), ("DiHypergraph", ctx.n(32, 470)), ("SimplicialComplex", ctx.n(18, 140))]
     results = {}
     for name, n in plan:
         fam = FAMILIES[name]
@@ -1066,15 +1560,17 @@ def run(ctx):
     ctx.extra["exhaustive_space"] = (f"correspondence + predicate on every hypergraph with {nn} labelled nodes and <= {me} distinct edges "
                                f"among all {2 ** nn} subsets (empty edge included), each also with its first edge doubled: {len(small)} "
                                "hypergraphs, observed after every construction step with objects held from the empty network on")
-    unexplained = any(r[0] for r in results.values())
+    for name in results:
+        collect(ctx, results[name])
+    unexplained = any(r["dis"] for r in results.values())
     if (unexplained or not ok) and not any(v["kind"] == "concrete" for v in ctx.violations):
         # look harder on the implementation alone, biased to the op kinds of the disagreeing histories
         for name, n in plan:
             fam = FAMILIES[name]
-            dis, histories, _ = results[name]
+            res = results[name]
             kinds = {}
-            for hi, oi, *_ in dis:
-                for op in histories[hi][0][: oi + 1]:
+            for hi, oi, *_ in res["dis"]:
+                for op in res["histories"][hi][0][: oi + 1]:
                     kinds[op["op"]] = 30
             run_family(ctx, fam, ctx.n(150, 1500), False, shrunk, weights=kinds or None)
         if not any(v["kind"] == "concrete" for v in ctx.violations):
@@ -1090,12 +1586,19 @@ def run(ctx):
         "the predicate is evaluated on states that satisfy the two-way incidence invariant (C01/C02/C03's subject); other states are counted as skipped",
         "a held FILTERED view naming an ID removed later may raise — not counted (DESIGN §7); filtered views are created from the held full views at every step",
         "after `copy` / `cleanup(in_place=False)` of a DiHypergraph history the held objects are re-created on the returned network",
-        "numpy/pandas are oracles: asnumpy/aspandas values are compared when the values are scalars of one type (np.array / pd.Series coerce mixed lists)",
-        "the model describes the code with proposed_fixes/C06-*.diff applied (aspandas in view order, maximal with an empty edge, directed neighbors/lookup/duplicates over the member union)",
+        "numpy/pandas/scipy are oracles: asnumpy/aspandas values are compared when the values are scalars of one type (np.array / pd.Series "
+        "coerce mixed lists; a table with list- or dict-valued attribute cells is not compared); aggregates are compared with exact "
+        "definitions by the float rule; `mode` may be any most frequent value; `ashist` (numpy binning) is not read",
+        "statistics read: degree family, average_neighbor_degree, attrs, size/order family. Not read: clustering coefficients, "
+        "centralities, local simpliciality stats, node_edge_centrality (other properties' subject)",
+        "weighted degrees: integer weights are compared with the model; a non-numeric weight makes the stat raise TypeError (checked); "
+        "bool/float weights and `weight=''` are outside the model",
+        "DiNodeView.isolates has no ignore_singletons, DiEdgeView has no singletons()/maximal(): for the directed class isolates(), empty() and "
+        "filterby('size', 1) are read instead",
     ]
     return finish(ctx, trusted_base=TRUSTED_COMMON + [
         "harness/props/c06.py: brute-force definitions over freshly constructed views (NodeView(H), EdgeView(H), DiNodeView, DiEdgeView), "
-        "float rule |x - p/q| <= 1e-9 max(1,|p/q|) for average_neighbor_degree",
+        "float rule |x - p/q| <= 1e-9 max(1,|p/q|) for average_neighbor_degree and the aggregates",
         "liveness (Python object aliasing: views hold the network's dicts, stat values are recomputed) is not a theorem: it is exhibited "
         "only by reading objects held across the whole history and comparing them with fresh views and with the model after every call"])
 
